@@ -405,6 +405,53 @@ func probeForwarding(e *fw.Env, prop string, l *Lab, ctx sdk.Context, pm *PauseM
 	}
 }
 
+// probeActionEdgesC09: the pause applies to the action, whatever its content: a fee action
+// without entries (a valid no-op) is refused while ACTION_FEE is paused; a payload naming an
+// action for which the application wires no controller (ACTION_SWAP) is never executed, paused
+// or not.
+func probeActionEdgesC09(e *fw.Env, l *Lab, ctx sdk.Context, pm *PauseModel, hist any) {
+	w := l.W
+	rt := spec.Route{Kind: "internal", To: w.K("rcpt1").String()}
+	routePaused := pm.Protocols[4] || pm.Cross["4|noble"]
+	feePaused := pm.Actions[1]
+	type probe struct {
+		name, memo string
+	}
+	probes := []probe{
+		{"fee-action-without-entries", actionsMemo([]string{"fee"}, [][]spec.Fee{{}}, rt)},
+		{"swap-action", actionsMemo([]string{"swap"}, nil, rt)},
+		{"fee-then-swap-action", actionsMemo([]string{"fee", "swap"}, [][]spec.Fee{{{Recipient: w.K("fee1").String(), IsBPS: true, BPS: 100}}}, rt)},
+	}
+	for _, p := range probes {
+		t := l.NewTransfer(e.R, world.USDC, big.NewInt(1_000_000), nil)
+		t.Memo = p.memo
+		branch, _ := ctx.CacheContext()
+		o := run.Do(w, branch, t, run.Mode{Kind: "H"})
+		e.Res.Eval()
+		MonPanic(e.Res, o)
+		MonC01(e.Res, o)
+		if o.Res.Panic != nil || o.Res.Err != nil || o.Res.Ack == nil {
+			continue
+		}
+		wtn := map[string]any{"history": hist, "probe": p.name, "memo": p.memo, "outcome": o.Res.String(), "model_state": pm.String()}
+		switch p.name {
+		case "fee-action-without-entries":
+			// what an open chain does with it is not this property's business (it is refused or a
+			// no-op); with ACTION_FEE paused it must be refused
+			if feePaused && o.Success() {
+				e.Res.Violate(fw.Violation{Property: "C09", Kind: "paused-action-executed", Tags: map[string]string{"probe": p.name},
+					Detail: "a payload with a fee action (no entries) is forwarded while ACTION_FEE is paused", Witness: wtn})
+			}
+		default:
+			if o.Success() {
+				e.Res.Violate(fw.Violation{Property: "C09", Kind: "action-without-controller-skipped", Tags: map[string]string{"probe": p.name},
+					Detail: fmt.Sprintf("a payload containing ACTION_SWAP (no controller in this application; paused=%v) is acknowledged as successful", pm.Actions[2]), Witness: wtn})
+			}
+		}
+		e.Res.Sig("action-edge|%s|fee-paused=%v|swap-paused=%v|route-paused=%v|%s", p.name, feePaused, pm.Actions[2], routePaused, outcomeClass(o))
+	}
+}
+
 // runAdmin executes one admin message on ctx (mode H) and checks response and state against the
 // model; it returns false when the walk should stop (model out of sync).
 func runAdmin(e *fw.Env, prop string, l *Lab, ctx sdk.Context, pm *PauseModel, m AdminMsg, hist *[]AdminMsg) bool {
@@ -597,6 +644,7 @@ func CheckC09(e *fw.Env, l *Lab) {
 				}
 				probeForwarding(e, "C09", l, ctx, pm, true, trail)
 				probeForwarding(e, "C09", l, ctx, pm, false, trail)
+				probeActionEdgesC09(e, l, ctx, pm, trail)
 			}
 		}
 		if wk == 0 {
